@@ -297,3 +297,11 @@ def change_path_validates_like_the_description(ctx):
               'pobj.datatype.validate(value, previous=pobj.value)',
               'the change path does not validate with previous=<cached value>: a partial struct that the described datainfo accepts is refused '
               '(or cached incomplete) by the node', f)
+
+
+@rule('C06.R7', min_instances=1)
+def value_slots_tested_by_identity(ctx):
+    """cross-cutting: constant / value / default / target are never tested by their truth value in the request and
+    configuration paths (dispatcher, modulebase, params, secnode, persistent)"""
+    from sa.rules import common
+    common.truthiness_on_value_slots(ctx, {'frappy.protocol.dispatcher', 'frappy.modulebase', 'frappy.params', 'frappy.secnode', 'frappy.persistent', 'frappy.modules'})
